@@ -6,7 +6,7 @@
    reachable from the start of process() with t tasks, n source items, concurrency c
    by ANY interleaving of these transitions.  The log is newest-first. *)
 From Coq Require Import List Arith Bool.
-From Wpull Require Import Model.Pipeline Proofs.PipelineBase Proofs.PipelineSafety Proofs.PipelineStop Proofs.PipelineLive Proofs.PipelineOnce Proofs.PipelineTerm Proofs.PipelineErr.
+From Wpull Require Import Model.Pipeline Proofs.PipelineBase Proofs.PipelineSafety Proofs.PipelineStop Proofs.PipelineLive Proofs.PipelineOnce Proofs.PipelineTerm Proofs.PipelineErr Proofs.PipelineFetch.
 Import ListNotations.
 
 (* every (start|end, item, task) event is logged at most once *)
@@ -48,6 +48,36 @@ Theorem C13_stop_takes_no_more :
      exists recent old, log s = recent ++ old /\ length old = m /\ forall i, ~ In (Start i 0) recent).
 Proof. exact stop_takes_no_more. Qed.
 Print Assumptions C13_stop_takes_no_more.
+
+(* "without taking further work" read on the SOURCE as well: after an effective stop() of a pipeline whose producer coroutine has
+   taken its first step, along every continuation (any interleaving, task completions and failures, source answers, further stop()
+   and concurrency changes) the producer's running flag stays down and the producer is suspended in get_item() only if it already
+   was when stop() was called - it never issues another get_item().  The guard "has taken its first step" cannot be dropped:
+   Producer.process() raises the flag on entry, so a stop() that precedes that step is followed by one fetch (example below);
+   the item is queued, never started (C13_stop_takes_no_more) and discarded. *)
+Theorem C13_no_fetch_after_stop :
+  forall t s ls s',
+    pstate s = St_running -> mainpc s <> M_new -> prod s <> P_new ->
+    run t (pipeline_stop s) ls = Some s' ->
+    prod_running s' = false /\ (prod s' = P_src -> prod s = P_src).
+Proof. exact stop_then_no_fetch. Qed.
+Print Assumptions C13_no_fetch_after_stop.
+
+(* non-vacuity: the source said "nothing now" while item 1 is in flight and the producer is parked in wait_for_worker: the
+   premises hold; a stop() there, the end of item 1 and the producer's wake-up end the producer without another fetch *)
+Example C13_no_fetch_nonvacuous :
+  exists s s', run 2 (init 2 1) [L_main; L_prod; E_src_item; L_prod; L_worker 0; E_src_none; L_prod] = Some s /\
+            pstate s = St_running /\ mainpc s <> M_new /\ prod s = P_wait_parked false /\
+            run 2 (pipeline_stop s) [E_task_done 1; L_worker 0; E_task_done 1; L_worker 0; L_prod] = Some s' /\ prod s' = P_done.
+Proof.
+  eexists. eexists. split; [vm_compute; reflexivity|]. split; [reflexivity|]. split; [discriminate|]. split; [reflexivity|].
+  split; vm_compute; reflexivity.
+Qed.
+
+(* the guard is needed: stop() before the producer's first step, then that step - the producer is in get_item() *)
+Example C13_fetch_after_early_stop :
+  exists s, run 1 (init 1 1) [L_main; E_stop; L_prod] = Some s /\ pstate s = St_stopping /\ prod s = P_src /\ prod_running s = true.
+Proof. eexists. split; [vm_compute; reflexivity|]. vm_compute. repeat split. Qed.
 
 (* no hang: in a reachable state in which no coroutine (main, producer, any worker) can take a
    step and the environment owes nothing - no task is in flight, the producer is not waiting for
